@@ -57,7 +57,7 @@ structure File (P M : Type) where
   payload : P
   h5ok    : Bool := true
   mf      : Option M := none
-deriving Repr
+deriving DecidableEq, Repr
 
 inductive Err
   | empty          -- "Cannot open empty list of containers!"
@@ -141,21 +141,26 @@ def lastOf (b : File P M) : List (File P M) → File P M
   | [] => b
   | f :: rest => lastOf f rest
 
+/-- the checks of `_open` on the sorted list `b :: rest`, in the order of the code -/
+def checkSorted (mfAware allowBaseless : Bool) (b : File P M) (rest : List (File P M)) :
+    Except Err Unit :=
+  if !allowBaseless && b.ub.prev.isSome then .error .basePrev
+  else do
+    checkUB H mfAware b.ub.rid b none (!rest.isEmpty)
+    checkRest H mfAware b.ub.rid b rest
+    if !pidsDistinct (b :: rest) then .error .dupPid
+    else if mfAware then checkManifest HM (lastOf b rest)
+    else pure ()
+
 /-- `IH5Record._open` / `IH5MFRecord._open` after the user blocks have been loaded.
 Returns the files in patch order. -/
 def validate (mfAware allowBaseless : Bool) (fs : List (File P M)) :
-    Except Err (List (File P M)) := do
-  if fs.isEmpty then throw .empty
-  if fs.any (fun f => !f.h5ok) then throw .h5open
-  match sortByIdx fs with
-  | [] => throw .empty
-  | b :: rest =>
-    if !allowBaseless && b.ub.prev.isSome then throw .basePrev
-    checkUB H mfAware b.ub.rid b none (!rest.isEmpty)
-    checkRest H mfAware b.ub.rid b rest
-    if !pidsDistinct (b :: rest) then throw .dupPid
-    if mfAware then checkManifest HM (lastOf b rest)
-    pure (b :: rest)
+    Except Err (List (File P M)) :=
+  if fs.isEmpty then .error .empty
+  else if fs.any (fun f => !f.h5ok) then .error .h5open
+  else match sortByIdx fs with
+    | [] => .error .empty
+    | b :: rest => (checkSorted H HM mfAware allowBaseless b rest).map (fun _ => b :: rest)
 
 /-- files whose user block could not be loaded are `none` (`IH5UserBlock.load` raised);
 `_open` loads all user blocks before anything else. -/
@@ -165,6 +170,37 @@ def openFiles (mfAware allowBaseless : Bool) (fs : List (Option (File P M))) :
   else match fs.mapM id with
     | none => throw .load
     | some l => validate H HM mfAware allowBaseless l
+
+/-! ## The specification: a coherent file set
+
+"one base plus a gap-free chain of patches of the same record whose committed payloads are
+byte-for-byte what was committed" — stated on the list in patch order. -/
+
+/-- `b` directly continues `a`: it names `a`'s state as its predecessor (and has a larger index). -/
+def Linked (a b : File P M) : Prop := a.ub.idx < b.ub.idx ∧ b.ub.prev = some a.ub.pid
+
+/-- every element continues the one before it (no gap, no fork) -/
+def ChainFrom : File P M → List (File P M) → Prop
+  | _, [] => True
+  | p, f :: r => Linked p f ∧ ChainFrom f r
+
+/-- the stored hash is the hash of the payload as it is now -/
+def HashOK (f : File P M) : Prop := f.ub.hash = some (H f.payload)
+
+def Coherent (mfAware allowBaseless : Bool) : List (File P M) → Prop
+  | [] => False
+  | b :: rest =>
+    (∀ f ∈ b :: rest, f.h5ok = true) ∧                      -- every file is an HDF5 file
+    (allowBaseless = false → b.ub.prev = none) ∧            -- one base
+    (∀ f ∈ rest, f.ub.rid = b.ub.rid) ∧                     -- same record
+    ChainFrom b rest ∧                                      -- gap-free chain linked by patch uuids
+    (∀ f ∈ (b :: rest).dropLast, HashOK H f) ∧              -- all but the newest: committed and untampered
+    ((lastOf b rest).ub.hash = none ∨ HashOK H (lastOf b rest)) ∧  -- newest: uncommitted, or untampered
+    ((b :: rest).map (fun f => f.ub.pid)).Nodup ∧           -- distinct patch uuids
+    (mfAware = true →
+      (∀ f ∈ rest, ∀ e, f.ub.ext = some e → e.isStub = false) ∧   -- only the base may be a stub
+      (∀ e, (lastOf b rest).ub.ext = some e →                     -- manifest matches its container
+        ∃ m, (lastOf b rest).mf = some m ∧ e.mhash = HM m))
 
 end
 
